@@ -60,7 +60,8 @@ pub fn insertion_order(order: usize, n: u64, salt: u64) -> Vec<u32> {
         "ascending" => (0..n).collect(),
         "descending" => (0..n).rev().collect(),
         "zigzag" => (0..n).map(|i| if i % 2 == 0 { i / 2 } else { n - 1 - i / 2 }).collect(),
-        "organpipe" => (0..n).map(|i| if i < n / 2 { 2 * i } else { 2 * (n - 1 - i) + 1 }).collect(),
+        // even keys ascending, then odd keys descending (a permutation of 0..n for every n)
+        "organpipe" => (0..n).step_by(2).chain((0..n).filter(|k| k % 2 == 1).rev()).collect(),
         _ => {
             let mut v: Vec<u32> = (0..n).collect();
             let mut s = salt ^ 0x1234_5678_9abc_def1;
